@@ -268,6 +268,11 @@ func (r *SortReg) rangeFact(term string, t types.Type, depth int) string {
 	case *types.Slice:
 		s := r.sortOf(t)
 		base := fmt.Sprintf("(and (>= (len_%s %s) 0) (<= (len_%s %s) 9223372036854775807))", s, term, s, term)
+		if _, isStruct := u.Elem().Underlying().(*types.Struct); isStruct && depth == 0 {
+			if ef := r.rangeFact(fmt.Sprintf("(select (arr_%s %s) k_rf)", s, term), u.Elem(), 1); ef != "" {
+				return fmt.Sprintf("(and %s (forall ((k_rf Int)) (! %s :pattern ((select (arr_%s %s) k_rf)))))", base, ef, s, term)
+			}
+		}
 		if eb, ok := u.Elem().Underlying().(*types.Basic); ok {
 			if lo, hi, ok := intRange(eb); ok && depth == 0 {
 				// element values of an integer slice are in the element type's range
